@@ -252,4 +252,8 @@ example : strCompare .sensitive [0x80] (.str [0x7F]) > 0 := by decide
 example : strCompare .insensitive [0x41, 0x62] (.str [0x61, 0x42]) = 0 := by decide
 example : strCompareN .sensitive [0x61, 0x62] (.str [0x61, 0x63]) 1 = 0 := by decide
 
+/-- the unit-range hypotheses are satisfiable -/
+example : Bytes [0x00, 0x41, 0x80, 0xFF] ∧ UnitsLt (2 ^ Elem.bits .wchar) [0, 0x10FFFF, 0xFFFFFFFF] ∧ UnitsLt (2 ^ 31) [0x10FFFF] := by decide
+example : (2 ^ 31 : Nat) < 2 ^ 64 ∧ ((5 : Nat) : Int) - (3 : Nat) < 2 ^ 31 := by decide
+
 end StVerif.Props.C06
